@@ -96,7 +96,7 @@ pub(crate) fn run_case_impl(case: &Case, opts: Opts) -> Result<Outcome, Failure>
     // ---- construction
     let n = st.n;
     let want_len = (case.len as usize).min(n);
-    let vals: Vec<u32> = (0..want_len as u32).map(|i| 1000 + i).collect();
+    let vals: Vec<u32> = (0..want_len as u32).map(|i| initial_val(case.vals, i, want_len as u32)).collect();
     let ctor = st.ctor;
     let (b, ids) = st
         .build(n, ctor, case.route, case.start as usize, &vals)
